@@ -62,12 +62,36 @@ def build_harness(race=False):
     return out
 
 
-def spec_digest():
+_DEP_RE = re.compile(r"^\s*(?:EXTENDS|INSTANCE)\s+(.*)$|==\s*INSTANCE\s+(\w+)", re.M)
+
+
+def spec_closure(module):
+    """The specification modules `module` depends on (EXTENDS / INSTANCE, transitively)."""
+    seen, todo = [], [module]
+    while todo:
+        m = todo.pop()
+        path = os.path.join(SPEC, m + ".tla")
+        if m in seen or not os.path.exists(path):
+            continue
+        seen.append(m)
+        text = open(path).read()
+        for a, b in _DEP_RE.findall(text):
+            for name in re.split(r"[,\s]+", (a or b).split("WITH")[0]):
+                if name:
+                    todo.append(name)
+    return sorted(seen)
+
+
+def spec_digest(module=None):
+    """Digest of the text of `module` and of every module it depends on (all modules when None)."""
     h = hashlib.sha256()
-    for f in sorted(os.listdir(SPEC)):
-        if f.endswith(".tla"):
-            h.update(f.encode())
-            h.update(open(os.path.join(SPEC, f), "rb").read())
+    if module is None:
+        files = sorted(f[:-4] for f in os.listdir(SPEC) if f.endswith(".tla"))
+    else:
+        files = spec_closure(module)
+    for f in files:
+        h.update(f.encode())
+        h.update(open(os.path.join(SPEC, f + ".tla"), "rb").read())
     return h.hexdigest()
 
 
@@ -134,7 +158,7 @@ def run_tlc(module, cfg, out_cases=None, workers=None, simulate=None, depth=None
     specification alone, never of /repo.
     """
     key = hashlib.sha256()
-    key.update(spec_digest().encode())
+    key.update(spec_digest(module).encode())
     key.update(module.encode())
     key.update(cfg.encode())
     key.update(repr((simulate, depth, seed() if simulate else 0)).encode())
@@ -217,7 +241,8 @@ def run_tlc(module, cfg, out_cases=None, workers=None, simulate=None, depth=None
                 else:
                     raise Infra("TLC failed on %s (rc=%s): %s\n%s" % (module, p.returncode, err, "\n".join(tail[-40:])))
             stats["cases"] = ncases
-            stats["spec"] = spec_digest()
+            stats["spec"] = spec_digest(module)
+            stats["module"] = module
             stats["wall_s"] = round(time.time() - t0, 2)
             stats["cached"] = False
             if not extra_files:
@@ -236,11 +261,15 @@ def prune_cache():
     """Drop cached corpora computed from another version of the specification."""
     if not os.path.isdir(CACHE):
         return
-    cur = spec_digest()
+    cur = {}
     for d in os.listdir(CACHE):
         st = os.path.join(CACHE, d, "stats.json")
         try:
-            ok = json.load(open(st)).get("spec") == cur
+            js = json.load(open(st))
+            m = js.get("module")
+            if m not in cur:
+                cur[m] = spec_digest(m)
+            ok = m is not None and js.get("spec") == cur[m]
         except Exception:
             ok = False
         if not ok:
